@@ -166,7 +166,11 @@ def safe_job(interp, c, case):
             _report(c, s_and(*conds),
                     "safe mode [%s]: whatever the rate law returns, reaction %d gets a positive propensity only if every "
                     "species it consumes (immediately or after its delay) is present in full" % (mode, j),
-                    "safe mode lets a reaction fire without its reactants")
+                    "safe mode lets a reaction fire without its reactants",
+                    rp=dict(kind="safe_block", S=S_, R=R_, mode=mode, rxn=j),
+                    syms=dict([("U_%d_%d" % (i_, j_), U[i_, j_]) for i_ in range(S_) for j_ in range(R_)]
+                              + [("D_%d_%d" % (i_, j_), D[i_, j_]) for i_ in range(S_) for j_ in range(R_)]
+                              + [("x_%d" % i_, x[i_]) for i_ in range(S_)] + [("V", V)]))
 
 
 def ma_cases(tier):
